@@ -16,6 +16,7 @@
 //! the oracle (the oracle is the extracted `reach_spec`, see ocaml/driver/c10.ml).
 use crate::dump::*;
 use crate::exprgen::*;
+use crate::c04::mcgen::{McCfg, dump_named, gen_mc_sys, restore_named};
 use crate::rng::Rng;
 use crate::sexp::{Sexp, read_cases};
 use crate::sysgen::{build_sys, dump_sys};
@@ -24,7 +25,7 @@ use baa::{BitVecOps, BitVecValue, Value};
 use patronus::expr::*;
 use patronus::mc::{InitValue, ModelCheckResult, Witness, bmc, pdr};
 use patronus::sim::{InitKind, Interpreter, Simulator};
-use patronus::smt::{CVC5, Solver, YICES2, Z3};
+use patronus::smt::{CVC5, CheckSatResponse, Error, Logic, Solver, SolverContext, SolverMetaData, YICES2, Z3};
 use patronus::system::*;
 use std::collections::{HashMap, HashSet, VecDeque};
 use std::io::{Read, Write};
@@ -160,6 +161,53 @@ fn fam_counter(ctx: &mut Context, rng: &mut Rng) -> TransitionSystem {
         let below = ctx.greater(ll, c);
         let cons = ctx.implies(e, below);
         sys.constraints.push(cons);
+    }
+    sys
+}
+
+/// k-bit arithmetic progression x' = x + c (k = 3..5, odd and even c; c a constant or chosen among 2 / 4
+/// constants by an input), arbitrary reset value, one or two
+/// single bad values: the unsat cores of the relative-induction queries drop many bits here, so that the
+/// restore loop of `fix_gen_cube` runs with several literals (seeded change C10-m4)
+fn fam_arith(ctx: &mut Context, rng: &mut Rng) -> TransitionSystem {
+    let mut sys = TransitionSystem::new("arith".to_string());
+    let w = rng.range(3, 5) as WidthInt;
+    let max = (1u64 << w) - 1;
+    let x = ctx.bv_symbol("x", w);
+    // the step: a constant, or one of 2 / 4 constants chosen by an input (then the initial state has
+    // several successors and the restore loop needs several literals to keep them all out)
+    let step = match rng.below(5) {
+        0 => lit(ctx, w, rng.range(1, max)),
+        1 | 2 => {
+            let sel = ctx.bv_symbol("sel", 1);
+            sys.add_input(ctx, sel);
+            let a = lit(ctx, w, rng.range(1, max));
+            let b = lit(ctx, w, rng.range(0, max));
+            ctx.ite(sel, a, b)
+        }
+        _ => {
+            let sel = ctx.bv_symbol("sel", 2);
+            sys.add_input(ctx, sel);
+            let hi = ctx.slice(sel, 1, 1);
+            let lo = ctx.slice(sel, 0, 0);
+            let a = lit(ctx, w, rng.range(1, max));
+            let b = lit(ctx, w, rng.range(0, max));
+            let c = lit(ctx, w, rng.range(1, max));
+            let d = lit(ctx, w, rng.range(0, max));
+            let ab = ctx.ite(lo, a, b);
+            let cd = ctx.ite(lo, c, d);
+            ctx.ite(hi, ab, cd)
+        }
+    };
+    let next = ctx.add(x, step);
+    let reset = rng.range(0, max);
+    let init = lit(ctx, w, reset);
+    add_state(ctx, &mut sys, x, Some(init), Some(next));
+    for _ in 0..(if rng.chance(1, 4) { 2 } else { 1 }) {
+        let t = rng.range(0, max);
+        let tl = lit(ctx, w, t);
+        let b = ctx.equal(x, tl);
+        sys.bad_states.push(b);
     }
     sys
 }
@@ -728,6 +776,7 @@ fn fam_consbad(ctx: &mut Context, rng: &mut Rng) -> TransitionSystem {
 fn gen_family(ctx: &mut Context, rng: &mut Rng, fam: &str) -> TransitionSystem {
     match fam {
         "counter" => fam_counter(ctx, rng),
+        "arith" => fam_arith(ctx, rng),
         "shift" => fam_shift(ctx, rng),
         "lockstep" => fam_lockstep(ctx, rng),
         "ring" => fam_ring(ctx, rng),
@@ -741,12 +790,14 @@ fn gen_family(ctx: &mut Context, rng: &mut Rng, fam: &str) -> TransitionSystem {
         "deadend" => fam_deadend(ctx, rng),
         "relinit" => fam_relinit(ctx, rng),
         "consbad" => fam_consbad(ctx, rng),
+        "mcgen" => panic!("mcgen systems are generated in the main loop"),
         other => panic!("unknown family {other}"),
     }
 }
 
 const FAMILIES: &[(&str, u64)] = &[
-    ("counter", 18),
+    ("counter", 16),
+    ("arith", 12),
     ("shift", 12),
     ("lockstep", 12),
     ("ring", 12),
@@ -760,6 +811,7 @@ const FAMILIES: &[(&str, u64)] = &[
     ("deadend", 7),
     ("relinit", 8),
     ("consbad", 7),
+    ("mcgen", 14),
 ];
 
 fn pick_family(rng: &mut Rng) -> &'static str {
@@ -993,6 +1045,8 @@ struct RunCfg {
     solver: String,
     gen_on: bool,
     sseed: u64,
+    /// fault injected at the n-th response-bearing call of the solver context: ("unknown"|"error", n)
+    fault: Option<(String, u64)>,
 }
 
 #[derive(Clone)]
@@ -1001,20 +1055,29 @@ struct Job {
     family: String,
     class: String,
     sys_text: String,
+    /// "(named (expr "name") ..)": the explicit names of non-symbol signals (they change the SMT encoding)
+    named: String,
     cfg: RunCfg,
 }
 
 fn configs(tier_runs: &str) -> Vec<RunCfg> {
-    // "z3:0,1,2;cvc5:0,1"
+    // "z3:0,1,2;cvc5:0,1"; "z3+:0,4" = with unsat-core generalisation only
     let mut out = vec![];
     for part in tier_runs.split(';') {
         let (solver, seeds) = part.split_once(':').expect("runs syntax solver:seed,seed;...");
+        let (solver, only_on) = match solver.strip_suffix('+') {
+            Some(s) => (s, true),
+            None => (solver, false),
+        };
         for s in seeds.split(',') {
             for gen_on in [true, false] {
+                if only_on && !gen_on {
+                    continue;
+                }
                 if solver == "pushpop" && gen_on {
                     continue; // the profile has no get-unsat-assumptions: generalisation cannot be enabled
                 }
-                out.push(RunCfg { solver: solver.to_string(), gen_on, sseed: s.parse().expect("seed") });
+                out.push(RunCfg { solver: solver.to_string(), gen_on, sseed: s.parse().expect("seed"), fault: None });
             }
         }
     }
@@ -1036,6 +1099,7 @@ fn parent(args: &Args) {
     let small_share = args.get_u64("small-share", 70);
     // cvc5's unsat cores generalise poorly (1 933 queries on a 32-state system): cvc5 only up to cvc5-bits
     let cvc5_bits = args.get_u64("cvc5-bits", 4) as u32;
+    let n_faults = args.get_u64("faults", 0);
     let mut jobs: Vec<Job> = vec![];
     let mut distinct_sys = HashSet::new();
 
@@ -1045,18 +1109,21 @@ fn parent(args: &Args) {
             let fam = c.field("family").map(|f| f[0].atom().to_string()).unwrap_or_else(|| "replay".into());
             let sys_sexp = c.list().iter().find(|x| matches!(x, Sexp::List(l) if !l.is_empty() && matches!(&l[0], Sexp::Atom(a) if a == "sys"))).expect("(sys ...) field");
             let mut ctx = Context::default();
-            let sys = build_sys(&mut ctx, sys_sexp);
+            let mut sys = build_sys(&mut ctx, sys_sexp);
+            restore_named(&mut ctx, &mut sys, c);
             let sys_text = dump_sys(&ctx, &sys);
+            let named = dump_named(&ctx, &sys);
             let class = guarded(|| classify(&ctx, &sys)).ok().flatten().map(|c| c.label()).unwrap_or_else(|| "unclassified".into());
             let cfg = RunCfg {
                 solver: c.field("solver").map(|f| f[0].atom().to_string()).unwrap_or_else(|| "z3".into()),
                 gen_on: c.field("gen").map(|f| f[0].atom() == "on").unwrap_or(true),
                 sseed: c.field("sseed").map(|f| f[0].num()).unwrap_or(0),
+                fault: c.field("fault").filter(|f| f.len() >= 2).map(|f| (f[0].atom().to_string(), f[1].num())),
             };
             stats.bump("family", &fam);
             stats.bump("class", &class);
             distinct_sys.insert(sys_text.clone());
-            jobs.push(Job { id, family: fam, class, sys_text, cfg });
+            jobs.push(Job { id, family: fam, class, sys_text, named, cfg });
         }
     }
 
@@ -1073,8 +1140,19 @@ fn parent(args: &Args) {
             None => pick_family(&mut r),
         };
         let mut ctx = Context::default();
-        let sys = gen_family(&mut ctx, &mut r, fam);
-        let Some(class) = classify(&ctx, &sys) else {
+        let (sys, mc_features) = if fam == "mcgen" {
+            // the generator of the encoding properties (C04/C02/C03): shared init/next/bad signals, init-dependency
+            // chains, delay registers, named signals, constant states, bare inputs as bad states ...; its
+            // encoding-level defects reach PDR through the BMC fallback and through the transition encoding
+            let cfg = McCfg { max_state_bits: 6, max_input_bits: 3, arrays: false, div_rem: false, init_reads_later: true };
+            let mut scratch = Stats::default();
+            let out = gen_mc_sys(&mut ctx, &mut r, &cfg, &mut scratch);
+            (out.sys, out.features)
+        } else {
+            (gen_family(&mut ctx, &mut r, fam), vec![])
+        };
+        let class = if fam == "mcgen" { guarded(|| classify(&ctx, &sys)).ok().flatten() } else { classify(&ctx, &sys) };
+        let Some(class) = class else {
             stats.inc("rejected_too_large");
             continue;
         };
@@ -1086,6 +1164,10 @@ fn parent(args: &Args) {
             None => "safe-trivial",
         };
         let special = matches!(fam, "noinit" | "freestate" | "conststate" | "initstate" | "initinput");
+        if fam == "mcgen" && (sys.bad_states.is_empty() || class.input_bits > 3) {
+            stats.inc("rejected_mcgen_shape");
+            continue;
+        }
         if class.bwd_layers > 13 {
             // a long backward chain from the bad states means many frames and thousands of queries:
             // that would test the watchdog against speed, not against hangs
@@ -1149,6 +1231,13 @@ fn parent(args: &Args) {
             *n_by_kind.entry("special").or_insert(0) += 1;
         }
         let label = class.label();
+        let named = dump_named(&ctx, &sys);
+        for f in mc_features.iter() {
+            stats.bump("mcgen_features", f);
+        }
+        if fam == "mcgen" {
+            stats.bump("mcgen_named_signals", &format!("{}", named.matches("\"").count() / 2));
+        }
         stats.bump("family", fam);
         stats.bump("class", &label);
         stats.bump("kind", kind);
@@ -1162,6 +1251,21 @@ fn parent(args: &Args) {
         stats.bump("n_constraints", &format!("{}", sys.constraints.len()));
         let full = class.state_bits <= full_bits;
         stats.bump("config_set", if full { "all-configurations" } else { "z3-generalisation-on-only" });
+        // fault runs (property C15 on the real pdr): `unknown` / an error injected at one response-bearing call
+        for fk in 0..n_faults {
+            let kind = if r.chance(1, 2) { "unknown" } else { "error" };
+            let at = if r.chance(1, 3) { r.below(6) } else { r.below(60) };
+            let solver = if full && r.chance(1, 3) { "cvc5" } else { "z3" };
+            let gen_on = !full || r.chance(1, 2);
+            jobs.push(Job {
+                id: format!("{produced}.f{fk}"),
+                family: fam.to_string(),
+                class: label.clone(),
+                sys_text: sys_text.clone(),
+                named: named.clone(),
+                cfg: RunCfg { solver: solver.to_string(), gen_on, sseed: 0, fault: Some((kind.to_string(), at)) },
+            });
+        }
         for (k, cfg) in cfgs.iter().enumerate() {
             if !full && !(cfg.solver == "z3" && cfg.gen_on) {
                 continue;
@@ -1170,12 +1274,16 @@ fn parent(args: &Args) {
                 continue;
             }
             // cvc5 seed 2 = --minimal-unsat-cores: 0.2-0.35 s per (get-unsat-assumptions); the relational
-            // families need 100-250 queries at 4 state bits, which is the watchdog's whole budget
-            if cfg.solver == "cvc5" && cfg.sseed == 2 && cfg.gen_on && class.state_bits > 3 && matches!(fam, "lockstep" | "fsm" | "ring") {
+            // families (and the arithmetic progressions, 300 queries at depth 8) need 100-300 queries at 4 state bits,
+            // which is the watchdog's whole budget
+            // (the same for any system whose bad states are 7 or more steps away / need 7 or more frames)
+            if cfg.solver == "cvc5" && cfg.sseed == 2 && cfg.gen_on && class.state_bits > 3
+                && (matches!(fam, "lockstep" | "fsm" | "ring" | "arith") || class.depth.map_or(class.bwd_layers >= 7, |d| d >= 7))
+            {
                 stats.inc("minimal_core_runs_skipped_expensive");
                 continue;
             }
-            jobs.push(Job { id: format!("{produced}.{k}"), family: fam.to_string(), class: label.clone(), sys_text: sys_text.clone(), cfg: cfg.clone() });
+            jobs.push(Job { id: format!("{produced}.{k}"), family: fam.to_string(), class: label.clone(), sys_text: sys_text.clone(), named: named.clone(), cfg: cfg.clone() });
         }
         produced += 1;
     }
@@ -1201,17 +1309,25 @@ fn parent(args: &Args) {
     let mut script_hashes: HashMap<String, HashSet<String>> = HashMap::new();
     for (job, res) in jobs.iter().zip(results.iter()) {
         let line = format!(
-            "(case {} (family {}) (class {}) (solver {}) (gen {}) (sseed {}) {} {})",
+            "(case {} (family {}) (class {}) (solver {}) (gen {}) (sseed {}){} {} {} {})",
             job.id,
             job.family,
             job.class,
             job.cfg.solver,
             if job.cfg.gen_on { "on" } else { "off" },
             job.cfg.sseed,
+            match &job.cfg.fault {
+                Some((k, n)) => format!(" (fault {k} {n})"),
+                None => String::new(),
+            },
             job.sys_text,
+            job.named,
             res.fields
         );
-        distinct.insert(format!("{} {} {} {}", job.sys_text, job.cfg.solver, job.cfg.gen_on, job.cfg.sseed));
+        if let Some((k, _)) = &job.cfg.fault {
+            stats.bump("fault_runs", &format!("{k}:{}:{}", if res.fields.contains("(faulthit 1)") { "hit" } else { "not-reached" }, res.kind));
+        }
+        distinct.insert(format!("{} {} {} {} {} {:?}", job.sys_text, job.named, job.cfg.solver, job.cfg.gen_on, job.cfg.sseed, job.cfg.fault));
         stats.bump("impl_result", &res.kind);
         stats.bump("impl_result_x_kind", &format!("{}:{}", res.kind, job.class.split("-d").next().unwrap_or("")));
         stats.bump("config", &format!("{}:gen-{}:seed{}", job.cfg.solver, if job.cfg.gen_on { "on" } else { "off" }, job.cfg.sseed));
@@ -1227,6 +1343,23 @@ fn parent(args: &Args) {
             stats.bump("trace_queries", &bucket(res.fields.matches(" (q ").count() as u64));
             stats.bump("trace_blocked_cubes", &bucket(res.fields.matches(" (block ").count() as u64));
             stats.bump("trace_frames", &format!("{}", res.fields.matches(" (addframe ").count().min(20)));
+            // how far the restore loop of fix_gen_cube was exercised: the largest number of candidate
+            // literals in one of its queries
+            let sizes = genfix_sel_sizes(&res.fields);
+            let label = match sizes.iter().map(|p| p.0).max() {
+                None => "restore-loop-not-reached".to_string(),
+                Some(m) if m >= 4 => "max-literals-4+".to_string(),
+                Some(m) => format!("max-literals-{m}"),
+            };
+            stats.bump("trace_restore_loop", &label);
+            stats.add("trace_restore_queries_with_2+_literals", sizes.iter().filter(|p| p.0 >= 2).count() as u64);
+            stats.add("trace_restore_cores_with_2+_literals", sizes.iter().filter(|p| p.1 >= 2).count() as u64);
+            if sizes.iter().any(|p| p.0 >= 2) {
+                stats.bump("restore_loop_2+_by_family", &job.family);
+            }
+            if sizes.iter().any(|p| p.1 >= 2) {
+                stats.bump("restore_core_2+_by_family", &job.family);
+            }
         } else {
             stats.inc("runs_without_trace_hook");
         }
@@ -1240,6 +1373,29 @@ fn parent(args: &Args) {
     }
     stats.add("distinct_cases", distinct.len() as u64);
     stats.write(&args.out);
+}
+
+/// for every restore-loop query in a dumped trace: the number of candidate literals (`sel`) and the
+/// number of literals in the unsat core of the answer (0 when the answer is sat)
+fn genfix_sel_sizes(fields: &str) -> Vec<(usize, usize)> {
+    let mut out = vec![];
+    let mut rest = fields;
+    while let Some(i) = rest.find(" (q genfix ") {
+        rest = &rest[i + 11..];
+        // the event ends where the next one starts
+        let end = [" (q ", " (block ", " (addframe "].iter().filter_map(|m| rest.find(m)).min().unwrap_or(rest.len());
+        let ev = &rest[..end];
+        if let Some(j) = ev.find("(sel") {
+            let tail = &ev[j..];
+            let (sel, ans) = match tail.find("(unsat").or_else(|| tail.find("(sat")).or_else(|| tail.find("(unknown")) {
+                Some(k) => (&tail[..k], &tail[k..]),
+                None => (tail, ""),
+            };
+            let core = if ans.starts_with("(unsat") { ans.matches("(l ").count() } else { 0 };
+            out.push((sel.matches("(l ").count(), core));
+        }
+    }
+    out
 }
 
 fn bucket(n: u64) -> String {
@@ -1306,6 +1462,10 @@ fn run_one(job: &Job, watchdog: u64) -> RunResult {
     let real_path = std::env::var("PATH").unwrap_or_default();
     let mut child = Command::new(exe)
         .args(["C10", "--worker", "1", "--solver", &job.cfg.solver, "--gen", if job.cfg.gen_on { "on" } else { "off" }, "--sseed", &job.cfg.sseed.to_string()])
+        .args(match &job.cfg.fault {
+            Some((k, n)) => vec!["--fault-kind".to_string(), k.clone(), "--fault-at".to_string(), n.to_string()],
+            None => vec![],
+        })
         .env("PATH", format!("{}:{}", wrap_dir(), real_path))
         .env("C10_REAL_PATH", &real_path)
         .env("C10_SOLVER_SEED", job.cfg.sseed.to_string())
@@ -1320,7 +1480,7 @@ fn run_one(job: &Job, watchdog: u64) -> RunResult {
     {
         let mut stdin = child.stdin.take().unwrap();
         let _ = stdin.write_all(job.sys_text.as_bytes());
-        let _ = stdin.write_all(b"\n");
+        let _ = stdin.write_all(format!("\n(x {})\n", job.named).as_bytes());
     }
     // read stdout in a thread so that a large witness cannot block the child
     let mut stdout = child.stdout.take().unwrap();
@@ -1389,12 +1549,131 @@ fn kind_is_fail(sx: &Sexp) -> bool {
 // worker: one run of the real pdr
 // ------------------------------------------------------------------------------------------------
 
+/// text of the injected error (the driver recognises it)
+pub const C10_FAULT_TEXT: &str = "injected: solver context error";
+
+/// A `SolverContext` that passes everything on to the real context and, at the n-th RESPONSE-BEARING call
+/// (check_sat, check_sat_assuming, get_value, get_unsat_assumptions; counted over restart()), replaces the
+/// result: `unknown` - a check answers `Ok(CheckSatResponse::Unknown)`; `error` - the call returns `Err`.
+/// The real call is made first, so the solver stays in step.  (Same idea as the context-level fault harness
+/// of C15; here the run also records the PDR trace, which the driver replays with the fault.)
+struct FaultyCtx<S: SolverContext> {
+    inner: S,
+    calls: u64,
+    at: Option<u64>,
+    fault: String,
+    hit: std::rc::Rc<std::cell::Cell<bool>>,
+}
+
+impl<S: SolverContext> FaultyCtx<S> {
+    fn hit(&mut self) -> bool {
+        let n = self.calls;
+        self.calls += 1;
+        self.at == Some(n)
+    }
+    fn err(&self) -> Error {
+        Error::FromSolver(self.inner.name().to_string(), C10_FAULT_TEXT.to_string())
+    }
+}
+
+impl<S: SolverContext> SolverMetaData for FaultyCtx<S> {
+    fn name(&self) -> &str {
+        self.inner.name()
+    }
+    fn supports_check_assuming(&self) -> bool {
+        self.inner.supports_check_assuming()
+    }
+    fn supports_uf(&self) -> bool {
+        self.inner.supports_uf()
+    }
+    fn supports_const_array(&self) -> bool {
+        self.inner.supports_const_array()
+    }
+    fn supports_get_unsat_assumptions(&self) -> bool {
+        self.inner.supports_get_unsat_assumptions()
+    }
+}
+
+impl<S: SolverContext> SolverContext for FaultyCtx<S> {
+    fn restart(&mut self) -> patronus::smt::Result<()> {
+        self.inner.restart()
+    }
+    fn set_logic(&mut self, option: Logic) -> patronus::smt::Result<()> {
+        self.inner.set_logic(option)
+    }
+    fn assert(&mut self, ctx: &Context, e: ExprRef) -> patronus::smt::Result<()> {
+        self.inner.assert(ctx, e)
+    }
+    fn declare_const(&mut self, ctx: &Context, symbol: ExprRef) -> patronus::smt::Result<()> {
+        self.inner.declare_const(ctx, symbol)
+    }
+    fn define_const(&mut self, ctx: &Context, symbol: ExprRef, expr: ExprRef) -> patronus::smt::Result<()> {
+        self.inner.define_const(ctx, symbol, expr)
+    }
+    fn check_sat_assuming(&mut self, ctx: &Context, props: impl IntoIterator<Item = ExprRef>) -> patronus::smt::Result<CheckSatResponse> {
+        let hit = self.hit();
+        let r = self.inner.check_sat_assuming(ctx, props);
+        if !hit {
+            return r;
+        }
+        self.hit.set(true);
+        match self.fault.as_str() {
+            "unknown" => r.map(|_| CheckSatResponse::Unknown),
+            _ => Err(self.err()),
+        }
+    }
+    fn check_sat(&mut self) -> patronus::smt::Result<CheckSatResponse> {
+        let hit = self.hit();
+        let r = self.inner.check_sat();
+        if !hit {
+            return r;
+        }
+        self.hit.set(true);
+        match self.fault.as_str() {
+            "unknown" => r.map(|_| CheckSatResponse::Unknown),
+            _ => Err(self.err()),
+        }
+    }
+    fn push(&mut self) -> patronus::smt::Result<()> {
+        self.inner.push()
+    }
+    fn pop(&mut self) -> patronus::smt::Result<()> {
+        self.inner.pop()
+    }
+    fn get_value(&mut self, ctx: &mut Context, e: ExprRef) -> patronus::smt::Result<ExprRef> {
+        let hit = self.hit();
+        let r = self.inner.get_value(ctx, e);
+        if hit && self.fault != "unknown" {
+            self.hit.set(true);
+            Err(self.err())
+        } else {
+            r
+        }
+    }
+    fn get_unsat_assumptions(&mut self, ctx: &mut Context) -> patronus::smt::Result<Vec<ExprRef>> {
+        let hit = self.hit();
+        let r = self.inner.get_unsat_assumptions(ctx);
+        if hit && self.fault != "unknown" {
+            self.hit.set(true);
+            Err(self.err())
+        } else {
+            r
+        }
+    }
+}
+
 fn worker(args: &Args) {
     let mut text = String::new();
     std::io::stdin().read_to_string(&mut text).expect("stdin");
-    let sx = Sexp::parse(text.trim()).expect("system s-expression");
+    // line 1: the system, line 2: (x (named ..))
+    let mut lines = text.trim().lines();
+    let sx = Sexp::parse(lines.next().unwrap_or("").trim()).expect("system s-expression");
     let mut ctx = Context::default();
-    let sys = build_sys(&mut ctx, &sx);
+    let mut sys = build_sys(&mut ctx, &sx);
+    if let Some(l) = lines.next() {
+        let nx = Sexp::parse(l.trim()).expect("names s-expression");
+        restore_named(&mut ctx, &mut sys, &nx);
+    }
     let solver = match args.get("solver").unwrap_or("z3") {
         "z3" => Z3,
         "cvc5" => CVC5,
@@ -1409,8 +1688,13 @@ fn worker(args: &Args) {
     let _ = std::fs::create_dir_all(dir);
     let script_path = format!("{dir}/{}.smt2", std::process::id());
     let file = std::fs::File::create(&script_path).expect("script file");
+    let fault_at = args.get("fault-at").map(|v| v.parse::<u64>().expect("fault-at"));
+    let fault_kind = args.get("fault-kind").unwrap_or("").to_string();
+    let hit_flag = std::rc::Rc::new(std::cell::Cell::new(false));
     let res = guarded(|| {
-        let mut smt_ctx = solver.start(Some(file)).map_err(|e| format!("start: {e}"))?;
+        let inner = solver.start(Some(file)).map_err(|e| format!("start: {e}"))?;
+        // always through the wrapper (transparent when no fault is requested)
+        let mut smt_ctx = FaultyCtx { inner, calls: 0, at: fault_at, fault: fault_kind.clone(), hit: hit_flag.clone() };
         if engine_bmc {
             // only for cross-checking a finding by hand: patronus' own bounded engine on the same system
             bmc(&mut ctx, &mut smt_ctx, &sys, false, false, 20).map_err(|e| format!("{e}"))
@@ -1435,7 +1719,7 @@ fn worker(args: &Args) {
     let script = script_stats(&script_path, &bases);
     let _ = std::fs::remove_file(&script_path);
     let trace = dump_trace(&ctx);
-    println!("(impl {impl_s}) (sim {sim_s}) (script {script}) (trace {trace})");
+    println!("(impl {impl_s}) (sim {sim_s}) (script {script}) (faulthit {}) (trace {trace})", if hit_flag.get() { 1 } else { 0 });
 }
 
 /// the logical trace of the run recorded by the cfg(patronus_verif) hook in pdr.rs (if the patronus
